@@ -424,6 +424,75 @@ func c04SharedRecords(w *core.W, j int) {
 	}
 }
 
+// c04RootPointers: the root name written as a compression pointer - to the zero octet that ends an
+// earlier name, or to a pointer to it. No packer gains anything by it, but "compressed names are still
+// accepted on input", and a name made of pointers alone is the shortest of them: it decodes to the root.
+func c04RootPointers(w *core.W, j int) {
+	g := model.NewGen(w.Rng(j))
+	qn := g.NameOfWireLen(3 + g.R.IntN(60))
+	if !qn.Valid() {
+		return
+	}
+	head := func(an, ar int) []byte {
+		return []byte{byte(j >> 8), byte(j), 0x84, 0, 0, 1, 0, byte(an), 0, 0, 0, byte(ar)}
+	}
+	q := append(qn.Wire(), 0, 2, 0, 1)
+	zero := 12 + len(qn.Wire()) - 1 // the octet that ends the question name
+	type rec struct {
+		owner, rdata []byte // as written (pointers allowed) ...
+		ownerU, rdU  []byte // ... and spelled out
+		typ          uint16
+	}
+	ptr := func(o int) []byte { return []byte{0xC0 | byte(o>>8), byte(o)} }
+	wire := func(rs []rec, plain bool, an, ar int) []byte {
+		b := append(head(an, ar), q...)
+		for _, r := range rs {
+			o, rd := r.owner, r.rdata
+			if plain {
+				o, rd = r.ownerU, r.rdU
+			}
+			b = append(b, o...)
+			b = append(b, byte(r.typ>>8), byte(r.typ), 0, 1, 0, 0, 0, 60, byte(len(rd)>>8), byte(len(rd)))
+			b = append(b, rd...)
+		}
+		return b
+	}
+	// record 1: NS owned by the root (a pointer to the zero octet), target the root (another pointer to it)
+	// record 2: its owner is a pointer to record 1's owner pointer; MX with the root as exchange
+	r1 := rec{owner: ptr(zero), rdata: ptr(zero), ownerU: []byte{0}, rdU: []byte{0}, typ: 2}
+	off1 := 12 + len(q)
+	r2 := rec{owner: ptr(off1), rdata: append([]byte{0, 10}, ptr(off1)...), ownerU: []byte{0}, rdU: []byte{0, 10, 0}, typ: 15}
+	// record 3 (additional): an OPT-like position - a TXT owned by the root through a two-hop pointer
+	off2 := off1 + 2 + 10 + 2
+	r3 := rec{owner: ptr(off2), rdata: []byte{1, 'x'}, ownerU: []byte{0}, rdU: []byte{1, 'x'}, typ: 16}
+	rs := []rec{r1, r2, r3}
+	comp, plain := wire(rs, false, 2, 1), wire(rs, true, 2, 1)
+	wit := map[string]any{"compressed_input": hx(comp), "uncompressed_input": hx(plain)}
+	w.Eval(1)
+	mc, mu := new(dns.Msg), new(dns.Msg)
+	var ec, eu error
+	if w.Guard("Msg.Unpack(root pointers)", wit, func() { ec, eu = mc.Unpack(comp), mu.Unpack(plain) }) {
+		return
+	}
+	w.Count("root_pointer_messages", 1)
+	if eu != nil {
+		return
+	}
+	if ec != nil {
+		w.Violation("C04/compressed-input-rejected/root-pointers", fmt.Sprintf("a message whose root names are written as pointers to a zero octet: %v", ec), wit)
+		return
+	}
+	if d := bridge.DiffNoRdlen(mu, mc); d != "" {
+		w.Violation("C04/compressed-decodes-differently/root-pointers", "root names written as pointers decode differently from the root written out: "+d, wit)
+		return
+	}
+	// and what was decoded packs again into the plain form
+	if out, err := mc.Pack(); err != nil || !bytes.Equal(out, plain) {
+		w.Violation("C04/compressed-decodes-differently/root-pointers", fmt.Sprintf("the message decoded from root pointers does not pack into the uncompressed form (err %v): %s", err, diffWin(out, plain)), wit)
+	}
+	w.Nontrivial(comp)
+}
+
 func init() {
 	plan, run := sections(
 		section{"small", tiered(3000, 60000), c04Small},
@@ -432,12 +501,13 @@ func init() {
 		section{"dense", tiered(120, 3000), c04Dense},
 		concurrentSection("C04"),
 		section{"shared-records", tiered(40, 800), c04SharedRecords},
+		section{"root-pointers", tiered(40, 800), c04RootPointers},
 	)
 	core.Register(&core.Monitor{
 		ID: "C04", Level: "exploration", Plan: plan, Run: run,
 		Rule: "messages drawn from small pools of suffix-sharing / case-variant / escaped names, 0..4 questions, every name-bearing type in every section, plus 300..1200-record messages crossing offset 16384; " +
 			"oracle = strict model decoder (expands names, logs every pointer with position/target/field) compared byte-exact with the uncompressed packing; model-compressed input with pointers in every type's RDATA; the same message packed again after a failing and after a succeeding Pack of a related message with shifted offsets must give identical octets; " +
-			"the same operations called from 8 goroutines at once give the results they give alone; two messages sharing their record values (different compression contexts) packed from 8 goroutines at once; non-trivial = distinct message whose compressed form is shorter",
+			"root names written as pointers (one and two hops) to the zero octet of an earlier name; the same operations called from 8 goroutines at once give the results they give alone; two messages sharing their record values (different compression contexts) packed from 8 goroutines at once; non-trivial = distinct message whose compressed form is shorter",
 		Assumptions: []string{"RFC 3597 s.4 set = NS MD MF CNAME SOA MB MG MR PTR MINFO MX"},
 		MinObserved: []string{"messages", "pointers", "messages_over_16384", "input_pointers_in_other_rdata", "history_checks", "special_use_messages"},
 	})
